@@ -64,6 +64,10 @@ def build(spec):
         a, b = li.lit(spec["a"]), li.lit(spec["b"])
         body = (f"r := {a} .. {b}\nr[0] = 77\nr += [5]\ns := {a} .. {b}\nprint(s)\nn := 0\nfor [i, v] in {a} .. {b} {{\n    n += 1\n    print(v)\n}}\n"
                 f"print(r === s)\n")
+    elif k == "rangebounds":
+        a, b = li.lit(spec["a"]), li.lit(spec["b"])
+        body = (f"lo := {a}\nhi := {b}\ncalls := 0\nfn end() {{\n    calls += 1\n    return hi\n}}\nfor [i, v] in lo .. hi {{\n    hi -= 1\n    print(v)\n}}\n"
+                f"print(hi)\nhi = {b}\nfor [i, v] in lo .. end() {{\n    hi -= 1\n    print(v)\n}}\nprint(calls)\n")
     elif k == "lits":
         body = "".join(f"print({t})\n" for t in spec["lits"])
     elif k == "badlit":
@@ -158,6 +162,14 @@ def judge(spec, r):
         want = "[\n" + "".join(f"    {v},\n" for v in exp) + "]\n" + "".join(f"{v}\n" for v in exp) + "false\n"
         if st != "0" or out != want:
             return False, f"{a} .. {b} evaluated again after the first result was changed: expected {exp} both times and two distinct lists; printed {out[:120]!r} status {st} {err[:100]}"
+        return True, ""
+    if k == "rangebounds":
+        a, b = spec["a"], spec["b"]
+        exp = list(range(a, b))
+        want = exp + [b - len(exp)] + exp + [1]
+        if st != "0" or li.ints_in(out) != want:
+            return False, (f"the bounds of the range in a `for` header are evaluated once, before the first iteration: {a} .. {b} visits {exp} "
+                           f"whatever the body does to the variables the bounds were read from; printed {li.ints_in(out)[:14]} status {st} {err[:100]}")
         return True, ""
     if k == "lits":
         exp = [lit_value(t) for t in spec["lits"]]
@@ -462,6 +474,7 @@ def run(ctx, model_ok):
     run_stream(ctx, "comparisons-as-conditions", cond_cmp_specs(grid), model_ok)
     run_stream(ctx, "offset-chains", chain_specs(), model_ok)
     run_stream(ctx, "ranges-evaluated-twice", range_twice_specs(), model_ok)
+    run_stream(ctx, "range-bounds-evaluated-once", [dict(s, k="rangebounds") for s in range_twice_specs()], model_ok)
     # `x op= y` always equals `x = x op y`, for operands of every kind: same output, same outcome, same message
     pairs = meta_pairs()
     srcs = [build(s) for p in pairs for s in p]
